@@ -168,8 +168,11 @@ def t1_agreement(ctx):
     # save_metadata -> _write_tsv_simple(path, name, dict)
     sm = repo.func(M, 'save_metadata')
     c = [x for x in sm.calls() if dotted(x.func) == '_write_tsv_simple']
-    ctx.check(bool(c) and [unparse(a) for a in c[0].args] == sm.params[:3], 'C10.T1', sm, c[0] if c else 'save_metadata',
-              'module-level save_metadata forwards (file, field name, mapping) to the two-column writer', 'save_metadata does not forward (file, field, mapping) to _write_tsv_simple')
+    fw = [sm.expand(q.arg(c[0], k_, n_)) if q.arg(c[0], k_, n_) is not None else None for k_, n_ in enumerate(('path', 'field_name', 'data'))] if c else []
+    good_fw = bool(c) and len(fw) == 3 and all(x is not None and Pat().m(p_, x) for x, p_ in zip(fw, sm.params[:3]))
+    perm_fw = bool(c) and len(fw) == 3 and all(isinstance(x, ast.Name) and x.id in sm.params[:3] for x in fw) and not good_fw
+    ctx.tri(good_fw, perm_fw, 'C10.T1', sm, c[0] if c else 'save_metadata', 'module-level save_metadata forwards (file, field name, mapping) to the two-column writer',
+            'save_metadata does not forward (file, field, mapping) to _write_tsv_simple', 'the call of the two-column writer in save_metadata was not recognised')
     # cluster file priority
     ssc = repo.lookup_method(cls, 'save_spike_clusters')
     lsc = repo.lookup_method(cls, '_load_spike_clusters')
@@ -184,8 +187,11 @@ def t1_agreement(ctx):
               'save_spike_clusters writes %s while the loader reads %s first' % ([const_value(a) for a in fs[0].args] if fs else '?', [const_value(a) for a in fl[0].args] if fl else '?'))
     # the array saved is the argument
     sv = [x for x in ssc.calls() if dotted(x.func) == 'np.save']
-    ctx.check(bool(sv) and len(sv[0].args) == 2 and unparse(sv[0].args[1]) == ssc.params[1], 'C10.T1', ssc, sv[0] if sv else 'save_spike_clusters',
-              'the assignments passed by the caller are what is saved', 'save_spike_clusters does not save its argument')
+    saved_x = ssc.expand(q.arg(sv[0], 1, 'arr')) if sv and q.arg(sv[0], 1, 'arr') is not None else None
+    ctx.tri(saved_x is not None and Pat().m(ssc.params[1], saved_x),
+            saved_x is not None and ((isinstance(saved_x, ast.Attribute) and isinstance(saved_x.value, ast.Name) and saved_x.value.id == 'self') or isinstance(saved_x, ast.Constant)),
+            'C10.T1', ssc, sv[0] if sv else 'save_spike_clusters', 'the assignments passed by the caller are what is saved',
+            'save_spike_clusters does not save its argument (`%s`)' % (unparse(saved_x) if saved_x is not None else ''), 'what save_spike_clusters saves was not recognised')
     # subset store names
     sw = repo.lookup_method(cls, 'save_spikes_subset_waveforms')
     lw = repo.lookup_method(cls, '_load_spike_waveforms')
@@ -242,10 +248,25 @@ def t1_agreement(ctx):
     else:
         ctx.undecided('C10.T1', lw, 'roles of the subset-store files not recognised (written %s, read %s)' % (saved_roles, read))
     # all or none
-    guard = [i for i in lw.nodes(ast.If) if 'exists()' in unparse(i.test)]
-    ok = bool(guard) and unparse(guard[0].test).count('exists()') == 3 and ' or ' in unparse(guard[0].test) and unparse(guard[0].test).count('not ') == 3
-    ctx.check(ok, 'C10.T1', lw, guard[0].test if guard else '_load_spike_waveforms', 'the subset store is used only when all three files exist',
-              'the subset store is loaded although one of its files may be missing')
+    guard = [i for i in lw.nodes(ast.If) if any(isinstance(n, ast.Call) and q.method_name(n) in ('exists', 'is_file') for n in ast.walk(i.test))]
+    def n_exists(t_):
+        return sum(1 for n in ast.walk(t_) if isinstance(n, ast.Call) and q.method_name(n) in ('exists', 'is_file'))
+    def all_or_none(t_):
+        # `not a.exists() or not b.exists() or not c.exists()` -> leave ;  `a.exists() and b.exists() and c.exists()` -> use ; `not (a and b and c)` ; `not all(...)`
+        t_ = lw.expand(t_)
+        if isinstance(t_, ast.BoolOp) and isinstance(t_.op, ast.Or) and all(isinstance(v, ast.UnaryOp) and isinstance(v.op, ast.Not) for v in t_.values) and n_exists(t_) == 3:
+            return True
+        if isinstance(t_, ast.BoolOp) and isinstance(t_.op, ast.And) and not any(isinstance(v, ast.UnaryOp) for v in t_.values) and n_exists(t_) == 3:
+            return True
+        if isinstance(t_, ast.UnaryOp) and isinstance(t_.op, ast.Not) and isinstance(t_.operand, ast.BoolOp) and isinstance(t_.operand.op, ast.And) and n_exists(t_) == 3:
+            return True
+        return False
+    ok = bool(guard) and any(all_or_none(g_.test) for g_ in guard)
+    too_few = bool(guard) and not ok and max(n_exists(lw.expand(g_.test)) for g_ in guard) < 3 and not any(isinstance(n, ast.Call) and dotted(n.func) in ('all', 'any') for g_ in guard for n in ast.walk(lw.expand(g_.test)))
+    any_form = bool(guard) and not ok and any(isinstance(lw.expand(g_.test), ast.BoolOp) and isinstance(lw.expand(g_.test).op, ast.And) and
+                                              all(isinstance(v, ast.UnaryOp) and isinstance(v.op, ast.Not) for v in lw.expand(g_.test).values) for g_ in guard)
+    ctx.tri(ok, too_few or any_form, 'C10.T1', lw, guard[0].test if guard else '_load_spike_waveforms', 'the subset store is used only when all three files exist',
+            'the subset store is loaded although one of its files may be missing', 'the existence test of the subset store was not recognised')
 
 
 def p1_d1(ctx):
@@ -266,8 +287,9 @@ def p1_d1(ctx):
     ctx.check(ok, 'C10.P1', lm, node or '_load_metadata', 'a metadata file that cannot be read is skipped (any exception) and loading continues',
               'an unreadable metadata file aborts loading: the per-file read is not inside a handler that catches Exception and continues')
     ret = [r for r in lm.returns() if r.value is not None]
-    ctx.check(bool(ret) and not any(isinstance(n, ast.Try) and q.contains(n, ret[-1]) for n in ast.walk(lm.node)), 'C10.P1', lm, ret[-1] if ret else '_load_metadata',
-              'the collected metadata is returned after the loop', 'metadata is not returned after the loop')
+    in_loop = bool(ret) and any(isinstance(a_, (ast.For, ast.While, ast.Try)) for a_ in lm.ancestors(ret[-1]))
+    ctx.tri(bool(ret) and not in_loop, in_loop, 'C10.P1', lm, ret[-1] if ret else '_load_metadata',
+            'the collected metadata is returned after the loop', 'metadata is not returned after the loop', 'the return of the collected metadata was not found')
     # D1 None filtered
     sm = repo.lookup_method(cls, 'save_metadata')
     c = [x for x in sm.calls() if dotted(x.func) == 'save_metadata']
@@ -287,7 +309,9 @@ def p1_d1(ctx):
     else:
       ctx.check(ok, 'C10.D1', sm, c[0] if c else 'save_metadata', 'None entries are dropped and every other (cluster, value) pair is written unchanged',
               'save_metadata does not write exactly the non-None (cluster, value) pairs')
-    ctx.check(bool(c) and unparse(c[0].args[1]) == sm.params[1], 'C10.D1', sm, c[0] if c else 'save_metadata', 'the field name is the column header', 'the column header is not the field name')
+    hd_x = sm.expand(q.arg(c[0], 1, 'field_name')) if c and q.arg(c[0], 1, 'field_name') is not None else None
+    ctx.tri(hd_x is not None and Pat().m(sm.params[1], hd_x), hd_x is not None and (isinstance(hd_x, ast.Constant) or (isinstance(hd_x, ast.Name) and hd_x.id in sm.params and hd_x.id != sm.params[1])),
+            'C10.D1', sm, c[0] if c else 'save_metadata', 'the field name is the column header', 'the column header is not the field name', 'the header passed to the writer was not recognised')
     # override semantics in load_metadata / _load_metadata
     ldm = repo.func(M, 'load_metadata')
     PL = Pat(ldm)
